@@ -64,6 +64,12 @@ mod chemistry;
 pub mod shim_filesystem; // really just for override_file_for_debugging_rules, but the config seems to throw it off
 pub use interface::*;
 
+/// Verification hooks (compiled only with `--cfg mathcat_verif`); see /verif/DESIGN.md §5.
+#[cfg(mathcat_verif)]
+pub mod verif {
+    pub use crate::navigate::{verif_nav_state, verif_take_nav_log};
+}
+
 #[cfg(test)]
 pub fn init_logger() {
     env_logger::Builder::from_env(env_logger::Env::default().default_filter_or("debug"))
